@@ -652,11 +652,45 @@ func invoiceJSON(rr rateRef, c Case) []byte {
 		"currency": rr.reg.Currency,
 		"supplier": map[string]any{"name": "Supplier", "tax_id": map[string]any{"country": rr.reg.Country}},
 		"customer": map[string]any{"name": "Customer"},
-		"lines": []any{map[string]any{
-			"quantity": "1",
-			"item":     map[string]any{"name": "Item", "price": "100.00"},
-			"taxes":    []any{combo},
-		}},
+	}
+	// rows before the probed one with the same category and rate key and each
+	// other extension set the rate publishes (and none): every row resolves on
+	// its own extensions
+	var lines, charges []any
+	seen := map[string]bool{}
+	own, _ := json.Marshal(c.Ext)
+	seen[string(own)] = true
+	sets := []map[string]string{nil}
+	for _, v := range rr.rate.Values {
+		if len(v.Ext) > 0 {
+			sets = append(sets, v.Ext)
+		}
+	}
+	for _, ext := range sets {
+		k, _ := json.Marshal(ext)
+		if seen[string(k)] {
+			continue
+		}
+		seen[string(k)] = true
+		sib := map[string]any{"cat": c.Cat, "rate": c.Rate}
+		if len(ext) > 0 {
+			sib["ext"] = ext
+		}
+		row := map[string]any{"quantity": "2", "item": map[string]any{"name": "Sibling", "price": "10.00"}, "taxes": []any{sib}}
+		if len(lines)%2 == 1 {
+			charges = append(charges, map[string]any{"reason": "sibling", "amount": "1.00", "taxes": []any{sib}})
+		} else {
+			lines = append(lines, row)
+		}
+	}
+	lines = append(lines, map[string]any{
+		"quantity": "1",
+		"item":     map[string]any{"name": "Item", "price": "100.00"},
+		"taxes":    []any{combo},
+	})
+	doc["lines"] = lines
+	if len(charges) > 0 {
+		doc["charges"] = charges
 	}
 	if len(c.Tags) > 0 {
 		doc["$tags"] = c.Tags
@@ -721,10 +755,10 @@ func observeInvoice(rr rateRef, c Case) invObs {
 	if err := json.Unmarshal(data, &shown); err != nil {
 		return invObs{harness: "re-read: " + err.Error()}
 	}
-	if len(shown.Lines) != 1 || len(shown.Lines[0].Taxes) != 1 {
+	if len(shown.Lines) < 1 || len(shown.Lines[len(shown.Lines)-1].Taxes) != 1 {
 		return invObs{harness: "calculated invoice lost its line or combo"}
 	}
-	tc := shown.Lines[0].Taxes[0]
+	tc := shown.Lines[len(shown.Lines)-1].Taxes[0]
 	if tc.Cat != c.Cat || tc.Rate != c.Rate {
 		return invObs{harness: fmt.Sprintf("combo became %s/%s", tc.Cat, tc.Rate)}
 	}
@@ -1132,7 +1166,7 @@ func judgeUnpublished(c TableCase, o *vh.Obs) {
 func init() {
 	vh.Describe(
 		"Oracle = published tables data/regimes/*.json only: applicable values are those whose tags intersect the document tags (when tagged) and whose ext is contained in the combo's ext (when qualified); the answer is the applicable value with the greatest since <= tax date (undated = minus infinity, a value is in force ON its start date); none => nil / calculation error; exempt key => no percentage; equal start dates: a qualified value beats an unqualified one (class tie:qualified-beats-unqualified, own signature), other ties with different percentages only assert membership. "+
-			"Observed through tax.RateDef.Value on the registered regime and through lines[0].taxes[0] of a one-line invoice built as JSON, parsed by gobl.Parse and calculated, with the tax date as issue_date, as issue_date next to a decoy op_date, as value_date overriding a decoy issue_date, and as the issue_date of a credit note whose preceding document carries a decoy issue date; half of the invoice cases carry a stale input percent/surcharge that must be replaced. "+
+			"Observed through tax.RateDef.Value on the registered regime and through the last line of an invoice built as JSON (preceded by sibling lines and charges with the same category and rate key and every other extension set the rate publishes, and none), parsed by gobl.Parse and calculated, with the tax date as issue_date, as issue_date next to a decoy op_date, as value_date overriding a decoy issue_date, and as the issue_date of a credit note whose preceding document carries a decoy issue date; half of the invoice cases carry a stale input percent/surcharge that must be replaced. "+
 			"boundaries (exhaustive): every published regime file x category x rate key x {since-1, since, since+1 of every value} + {0001-01-01, "+today+", 9999-12-31} x ext variants (none, each qualifier exactly / plus an unrelated pair / value altered, unrelated only) x tag variants (none, unrelated, each table tag) x 4 observation routes. random: arbitrary dates 0001..9999 (40% within 3 or 400 days of a start date, 40% 1985-2035, 20% anywhere), same variants, random decoys. tables: per published rate, strictly descending start dates with the undated value last among unqualified values and inside each identically-qualified group, and the registered Go table equal to the published one value by value; unpublished: every registered rate exists in the published files. "+
 			"Non-trivial: the date is within one day of a published start date, or before the first applicable value, or a qualified value competes with an applicable unqualified one (tables: more than one value).",
 		"data/regimes/*.json in the tree under test are the referee; the Go tables are only ever observed",
